@@ -59,6 +59,7 @@ type SolveCfg struct {
 	All      bool // run all solvers to completion and compare
 	Workers  int
 	Seed     int
+	IgnoreSat bool // quantified queries: a solver's `sat` is not a verdict (incomplete quantifier reasoning; z3 4.8.12 has answered sat on refutable queries), only a candidate model
 	Short    func(name string) bool // obligations that get a short timeout (open known findings: reported either way)
 }
 
@@ -171,6 +172,7 @@ func (e *Engine) Solve(obls []*Obligation, cfg SolveCfg) {
 					c1.TimeoutS = 4 // vacuity guards only need to fail to be refuted quickly
 				}
 				cfgJ := cfg
+				cfgJ.IgnoreSat = true
 				if cfg.Short != nil && cfg.Short(j.o.Name) && cfg.TimeoutS > 10 {
 					c1.TimeoutS, cfgJ.TimeoutS = 10, 10
 				}
@@ -215,7 +217,7 @@ func (e *Engine) Solve(obls []*Obligation, cfg SolveCfg) {
 							startFull()
 						} else {
 							fullRes = p.r
-							if fullRes.Status == "unsat" || fullRes.Status == "sat" {
+							if fullRes.Status == "unsat" {
 								r = fullRes
 								break
 							}
@@ -304,6 +306,12 @@ func solveOneCtx(parent context.Context, file string, cfg SolveCfg) *SolveResult
 				}
 			}
 			continue
+		}
+		if cfg.IgnoreSat && a.status == "sat" {
+			if final.Model == "" {
+				final.Model = a.out
+			}
+			a.status = "unknown"
 		}
 		final.All[a.solver] = a.status
 		if a.status == "unsat" || a.status == "sat" {
